@@ -933,17 +933,20 @@ static PyObject* gemv(PyObject *self, PyObject *args, PyObject *kwrds)
     if (bo && number_from_pyobject(bo, &b, MAT_ID(x)))
         err_type("beta");
 
+    /* y := beta*y is done with scal, which needs a positive increment */
+    int aiy = abs(iy);
+
     switch (MAT_ID(x)){
         case DOUBLE:
             if (!ao) a.d=1.0;
             if (!bo) b.d=0.0;
             if (trans == 'N' && n == 0)
                 Py_BEGIN_ALLOW_THREADS
-                dscal_(&m, &b.d, MAT_BUFD(y)+oy, &iy);
+                dscal_(&m, &b.d, MAT_BUFD(y)+oy, &aiy);
                 Py_END_ALLOW_THREADS
             else if ((trans == 'T' || trans == 'C') && m == 0)
                 Py_BEGIN_ALLOW_THREADS
-                dscal_(&n, &b.d, MAT_BUFD(y)+oy, &iy);
+                dscal_(&n, &b.d, MAT_BUFD(y)+oy, &aiy);
                 Py_END_ALLOW_THREADS
             else
                 Py_BEGIN_ALLOW_THREADS
@@ -962,11 +965,11 @@ static PyObject* gemv(PyObject *self, PyObject *args, PyObject *kwrds)
 #endif
             if (trans == 'N' && n == 0)
                 Py_BEGIN_ALLOW_THREADS
-                zscal_(&m, &b.z, MAT_BUFZ(y)+oy, &iy);
+                zscal_(&m, &b.z, MAT_BUFZ(y)+oy, &aiy);
                 Py_END_ALLOW_THREADS
             else if ((trans == 'T' || trans == 'C') && m == 0)
                 Py_BEGIN_ALLOW_THREADS
-                zscal_(&n, &b.z, MAT_BUFZ(y)+oy, &iy);
+                zscal_(&n, &b.z, MAT_BUFZ(y)+oy, &aiy);
                 Py_END_ALLOW_THREADS
             else
                 Py_BEGIN_ALLOW_THREADS
@@ -1087,17 +1090,20 @@ static PyObject* gbmv(PyObject *self, PyObject *args, PyObject *kwrds)
     if (bo && number_from_pyobject(bo, &b, MAT_ID(x)))
         err_type("beta");
 
+    /* y := beta*y is done with scal, which needs a positive increment */
+    int aiy = abs(iy);
+
     switch (MAT_ID(x)){
         case DOUBLE:
             if (!ao) a.d=1.0;
             if (!bo) b.d=0.0;
             if (trans == 'N' && n == 0)
                 Py_BEGIN_ALLOW_THREADS
-                dscal_(&m, &b.d, MAT_BUFD(y)+oy, &iy);
+                dscal_(&m, &b.d, MAT_BUFD(y)+oy, &aiy);
                 Py_END_ALLOW_THREADS
             else if ((trans == 'T' || trans == 'C') && m == 0)
                 Py_BEGIN_ALLOW_THREADS
-                dscal_(&n, &b.d, MAT_BUFD(y)+oy, &iy);
+                dscal_(&n, &b.d, MAT_BUFD(y)+oy, &aiy);
                 Py_END_ALLOW_THREADS
             else
                 Py_BEGIN_ALLOW_THREADS
@@ -1116,11 +1122,11 @@ static PyObject* gbmv(PyObject *self, PyObject *args, PyObject *kwrds)
 #endif
             if (trans == 'N' && n == 0)
                 Py_BEGIN_ALLOW_THREADS
-                zscal_(&m, &b.z, MAT_BUFZ(y)+oy, &iy);
+                zscal_(&m, &b.z, MAT_BUFZ(y)+oy, &aiy);
                 Py_END_ALLOW_THREADS
             else if ((trans == 'T' || trans == 'C') && m == 0)
                 Py_BEGIN_ALLOW_THREADS
-                zscal_(&n, &b.z, MAT_BUFZ(y)+oy, &iy);
+                zscal_(&n, &b.z, MAT_BUFZ(y)+oy, &aiy);
                 Py_END_ALLOW_THREADS
             else
                 Py_BEGIN_ALLOW_THREADS
